@@ -47,7 +47,10 @@ Keys == 1..NKeys
 
 -----------------------------------------------------------------------------
 (* Values *)
-ValTab == << <<>>, <<1>>, <<2>>, <<1, 0>>, <<10>>, <<10, 12, 10>>, <<11, 3>>, <<9, 9>> >>
+MAXIV  == <<9, 2, 2, 3, 3, 7, 2, 0, 3, 6, 8, 5, 4, 7, 7, 5, 8, 0, 7>>       \* int64 max
+MAXI1V == <<9, 2, 2, 3, 3, 7, 2, 0, 3, 6, 8, 5, 4, 7, 7, 5, 8, 0, 6>>       \* int64 max - 1
+MINIV  == <<11, 9, 2, 2, 3, 3, 7, 2, 0, 3, 6, 8, 5, 4, 7, 7, 5, 8, 0, 8>>   \* int64 min
+ValTab == << <<>>, <<1>>, <<2>>, <<1, 0>>, <<10>>, <<10, 12, 10>>, <<11, 3>>, <<9, 9>>, MAXIV, MAXI1V, MINIV >>
 Val(id) == ValTab[id]
 
 NUL == 12
@@ -64,6 +67,25 @@ DigSeq(n) == IF n < 10 THEN <<n>> ELSE DigSeq(n \div 10) \o <<n % 10>>
 NumSeq(n) == IF n < 0 THEN <<MINUS>> \o DigSeq(0 - n) ELSE DigSeq(n)
 \* numerals the model does not evaluate (TLC integers are 32 bit)
 TooBig(v) == Len(v) > 8
+\* 64-bit extremes, symbolically.  Integer codes: IMAX = int64 max, IMAX1 = max - 1, IMIN = int64 min
+\* (as INCRBY / HINCRBY deltas, as replies, as EXPIRE durations).  Redis: an increment that would
+\* overflow answers an error and changes nothing.  SymAdd: <<"ok", new value, reply>> | <<"err">> | <<"out">>
+IMAX == 2000000001   IMAX1 == 2000000002   IMIN == -2000000001
+IsSymInt(d) == d \in {IMAX, IMIN}
+SymAdd(has, v, d) ==
+  LET big == has /\ v \in {MAXIV, MAXI1V, MINIV}
+      small == ~has \/ (~TooBig(v) /\ IsNum(v))
+      n == IF has THEN NumVal(v) ELSE 0
+  IN IF big /\ d = 0 THEN <<"ok", v, IF v = MAXIV THEN IMAX ELSE IF v = MAXI1V THEN IMAX1 ELSE IMIN>>
+     ELSE IF big /\ v = MAXIV THEN (IF d = IMIN THEN <<"ok", NumSeq(-1), -1>> ELSE IF d > 0 THEN <<"err">>
+                                   ELSE IF d = -1 THEN <<"ok", MAXI1V, IMAX1>> ELSE <<"out">>)
+     ELSE IF big /\ v = MAXI1V THEN (IF d = 1 THEN <<"ok", MAXIV, IMAX>> ELSE IF d > 1 THEN <<"err">> ELSE <<"out">>)
+     ELSE IF big /\ v = MINIV THEN (IF d = IMAX THEN <<"ok", NumSeq(-1), -1>> ELSE IF d < 0 THEN <<"err">> ELSE <<"out">>)
+     ELSE IF small /\ d = IMAX THEN (IF n > 0 THEN <<"err">> ELSE IF n = 0 THEN <<"ok", MAXIV, IMAX>>
+                                    ELSE IF n = -1 THEN <<"ok", MAXI1V, IMAX1>> ELSE <<"out">>)
+     ELSE IF small /\ d = IMIN THEN (IF n < 0 THEN <<"err">> ELSE IF n = 0 THEN <<"ok", MINIV, IMIN>> ELSE <<"out">>)
+     ELSE <<"out">>
+SymCase(has, v, d) == IsSymInt(d) \/ (has /\ v \in {MAXIV, MAXI1V, MINIV})
 
 Max2(a, b) == IF a > b THEN a ELSE b
 Min2(a, b) == IF a < b THEN a ELSE b
@@ -142,17 +164,37 @@ IdxRange(n, s, e) ==
   IN IF s2 > e2 \/ s2 >= n THEN <<1, 0>> ELSE <<s2 + 1, e2 + 1>>
 Idx1(n, i) == IF i < 0 THEN n + i + 1 ELSE i + 1     \* 1-based position, may be out of 1..n
 
+\* Scores.  A score is an integer code: |c| <= 1000000 is the score c/2 (half units); beyond that a few
+\* symbolic classes stand for numeric extremes that no small domain reaches (the driver maps them to
+\* the real numbers): +-tiny (1e-300), +-9e18 (just inside int64), +-2^63 (just outside), +-1e19,
+\* +-infinity, and "-0" (an input spelling of 0).  Ord gives the numeric order between all of them,
+\* so replies stay comparable; negative codes are the negated scores.
+TINY == 1000001   E9E18 == 1000002   E263 == 1000003   E1E19 == 1000004   EINF == 1000005   NEGZERO == 1000006
+Abs(x) == IF x < 0 THEN 0 - x ELSE x
+Sgn(x) == IF x < 0 THEN -1 ELSE 1
+IsExtreme(c) == Abs(c) > 1000000
+Ord(c) == IF ~IsExtreme(c) THEN 4 * c
+          ELSE Sgn(c) * (CASE Abs(c) = TINY -> 1 [] Abs(c) = E9E18 -> 1500000000 [] Abs(c) = E263 -> 1600000000
+                           [] Abs(c) = E1E19 -> 1700000000 [] Abs(c) = EINF -> 1800000000 [] Abs(c) = NEGZERO -> 0)
+ScoreNorm(c) == IF Abs(c) = NEGZERO THEN 0 ELSE c           \* what is stored / answered for an input score
+\* score + delta in floating point: a huge score absorbs a small delta, a small delta absorbs tiny;
+\* <<result, representable in this model>>
+ScoreAdd(s, d) == IF ~IsExtreme(s) /\ ~IsExtreme(d) THEN <<s + d, Abs(s + d) <= 1000000>>
+                  ELSE IF IsExtreme(d) THEN <<s, FALSE>>
+                  ELSE IF Abs(s) = TINY THEN <<IF d = 0 THEN s ELSE d, TRUE>>
+                  ELSE <<s, TRUE>>
 \* sorted set order: by score, ties by member
-ZLess(sc, a, b) == sc[a] < sc[b] \/ (sc[a] = sc[b] /\ a < b)
+ZLess(sc, a, b) == Ord(sc[a]) < Ord(sc[b]) \/ (Ord(sc[a]) = Ord(sc[b]) /\ a < b)
 RECURSIVE ZOrd(_, _)
 ZOrd(sc, S) == IF S = {} THEN <<>>
                ELSE LET m == CHOOSE x \in S : \A y \in S \ {x} : ZLess(sc, x, y)
                     IN <<m>> \o ZOrd(sc, S \ {m})
 ZSeq(r) == ZOrd(r.sc, DOMAIN r.sc)
 \* score interval: kinds 0 inclusive, 1 exclusive, 2 infinite
-InScore(s, lo, lok, hi, hik) == /\ (lok = 2 \/ (lok = 0 /\ s >= lo) \/ (lok = 1 /\ s > lo))
-                                /\ (hik = 2 \/ (hik = 0 /\ s <= hi) \/ (hik = 1 /\ s < hi))
-InLex(m, lo, lok, hi, hik) == InScore(m, lo, lok, hi, hik)
+InScore(s, lo, lok, hi, hik) == /\ (lok = 2 \/ (lok = 0 /\ Ord(s) >= Ord(lo)) \/ (lok = 1 /\ Ord(s) > Ord(lo)))
+                                /\ (hik = 2 \/ (hik = 0 /\ Ord(s) <= Ord(hi)) \/ (hik = 1 /\ Ord(s) < Ord(hi)))
+InLex(m, lo, lok, hi, hik) == /\ (lok = 2 \/ (lok = 0 /\ m >= lo) \/ (lok = 1 /\ m > lo))
+                              /\ (hik = 2 \/ (hik = 0 /\ m <= hi) \/ (hik = 1 /\ m < hi))
 PairsOf(r, ms) == [i \in 1..Len(ms) |-> <<ms[i], r.sc[ms[i]]>>]
 SelSeq(s, P(_)) == LET F[i \in 0..Len(s)] == IF i = 0 THEN <<>> ELSE IF P(s[i]) THEN Append(F[i - 1], s[i]) ELSE F[i - 1]
                    IN F[Len(s)]
@@ -171,7 +213,8 @@ DoCollExt(db, ty, op, k, a, t, now) ==
       rd  == CLive(ty, raw, now)
   IN CASE op = "clear"    -> IF CEmpty(ty, lv) THEN Res(db, RInt(0)) ELSE Res(PutC(db, ty, k, CGone(ty, raw)), RInt(1))
        [] op = "keyexist" -> Res(db, RInt(IF CEmpty(ty, rd) THEN 0 ELSE 1))
-       [] op = "expire"   -> IF a[1] <= 0 THEN Res(db, ROut)
+       [] op = "expire"   -> IF a[1] = IMAX THEN Res(db, RErr)      \* no representable expire time (Redis: invalid expire time)
+                             ELSE IF a[1] <= 0 THEN Res(db, ROut)
                              ELSE IF CEmpty(ty, lv) THEN Res(db, RInt(0))
                              ELSE Res(PutC(db, ty, k, SetExp(lv, t + a[1])), RInt(1))
        [] op = "ttl"      -> Res(db, RInt(IF Policy = "wc" /\ ~CEmpty(ty, rd) /\ rd.exp # 0 THEN rd.exp - now ELSE -1))
@@ -203,7 +246,7 @@ DoKV(db, c, k, a, t, now) ==
        [] c = "setx"   -> \* SET k v [EX d] [NX|XX]: a = <<vid, d (0 none), mode (0 none, 1 NX, 2 XX)>>
             IF (a[3] = 1 /\ lv.has) \/ (a[3] = 2 /\ ~lv.has) THEN Res(db, RNil)
             ELSE Res(PutKV(db, k, IF a[2] > 0 THEN SetExp(KVSet(raw, Val(a[1])), t + a[2]) ELSE KVSet(raw, Val(a[1]))), ROk)
-       [] c = "setex"  -> IF a[1] <= 0 THEN Res(db, RErr)
+       [] c = "setex"  -> IF a[1] <= 0 \/ a[1] = IMAX THEN Res(db, RErr)
                           ELSE Res(PutKV(db, k, SetExp(KVSet(raw, Val(a[2])), t + a[1])), ROk)
        [] c = "setnx"  -> IF lv.has THEN Res(db, RInt(0)) ELSE Res(PutKV(db, k, KVSet(raw, Val(a[1]))), RInt(1))
        [] c = "getset" -> Res(PutKV(db, k, KVSet(raw, Val(a[1]))), IF lv.has THEN RBulk(lv.v) ELSE RNil)
@@ -212,7 +255,12 @@ DoKV(db, c, k, a, t, now) ==
             IN Res(PutKV(d1, a[2], KVSet(d1.kv[a[2]], Val(a[3]))), ROk)
        [] c \in {"incr", "decr", "incrby", "decrby"} ->
             LET delta == CASE c = "incr" -> 1 [] c = "decr" -> -1 [] c = "incrby" -> a[1] [] c = "decrby" -> 0 - a[1]
-            IN IF lv.has /\ TooBig(lv.v) THEN Res(db, ROut)
+            IN IF SymCase(lv.has, lv.v, delta) THEN
+                    (IF lv.has /\ ~TooBig(lv.v) /\ ~IsNum(lv.v) THEN Res(db, RErr)
+                     ELSE LET r == SymAdd(lv.has, lv.v, delta)
+                          IN IF r[1] = "err" THEN Res(db, RErr) ELSE IF r[1] = "out" THEN Res(db, ROut)
+                             ELSE Res(PutKV(db, k, [lv EXCEPT !.has = TRUE, !.v = r[2]]), RInt(r[3])))
+               ELSE IF lv.has /\ TooBig(lv.v) THEN Res(db, ROut)
                ELSE IF lv.has /\ ~IsNum(lv.v) THEN Res(db, RErr)
                ELSE LET n == (IF lv.has THEN NumVal(lv.v) ELSE 0) + delta
                     IN Res(PutKV(db, k, [lv EXCEPT !.has = TRUE, !.v = NumSeq(n)]), RInt(n))
@@ -237,7 +285,8 @@ DoKV(db, c, k, a, t, now) ==
                 r2 == d1.kv[a[1]]
                 l2 == KVLive(r2, t)
             IN Res(PutKV(d1, a[1], KVGone(r2)), RInt(n1 + (IF l2.has THEN 1 ELSE 0)))
-       [] c = "expire" -> IF a[1] <= 0 THEN Res(db, ROut)
+       [] c = "expire" -> IF a[1] = IMAX THEN Res(db, RErr)
+                          ELSE IF a[1] <= 0 THEN Res(db, ROut)
                           ELSE IF ~lv.has THEN Res(db, RInt(0)) ELSE Res(PutKV(db, k, SetExp(lv, t + a[1])), RInt(1))
        [] c = "persist" -> IF ~lv.has \/ (Policy = "wc" /\ lv.exp = 0) THEN Res(db, RInt(0))
                            ELSE IF Policy = "ld" THEN Res(db, RErr)       \* not supported (user guide)
@@ -268,7 +317,13 @@ DoHash(db, c, k, a, t, now) ==
                ELSE Res(Put(CNorm("h", [lv EXCEPT !.f = Restrict(lv.f, DOMAIN lv.f \ ds)])), RInt(n))
        [] c = "hincrby" -> \* a = <<field, delta>>
             LET has == a[1] \in DOMAIN lv.f
-            IN IF has /\ TooBig(lv.f[a[1]]) THEN Res(db, ROut)
+                fv  == IF has THEN lv.f[a[1]] ELSE <<>>
+            IN IF SymCase(has, fv, a[2]) THEN
+                    (IF has /\ ~TooBig(fv) /\ ~IsNum(fv) THEN Res(db, RErr)
+                     ELSE LET r == SymAdd(has, fv, a[2])
+                          IN IF r[1] = "err" THEN Res(db, RErr) ELSE IF r[1] = "out" THEN Res(db, ROut)
+                             ELSE Res(Put([lv EXCEPT !.f = Upd(lv.f, a[1], r[2])]), RInt(r[3])))
+               ELSE IF has /\ TooBig(lv.f[a[1]]) THEN Res(db, ROut)
                ELSE IF has /\ ~IsNum(lv.f[a[1]]) THEN Res(db, RErr)
                ELSE LET n == (IF has THEN NumVal(lv.f[a[1]]) ELSE 0) + a[2]
                     IN Res(Put([lv EXCEPT !.f = Upd(lv.f, a[1], NumSeq(n))]), RInt(n))
@@ -367,12 +422,12 @@ DoZSet(db, c, k, a, t, now) ==
        [] c = "zrangebylex" -> Res(db, RIds(Sorted({m \in DOMAIN rd.sc : InLex(m, a[1], a[2], a[3], a[4])})))
        [] c = "zlexcount" -> Res(db, RInt(Cardinality({m \in DOMAIN rd.sc : InLex(m, a[1], a[2], a[3], a[4])})))
        [] c = "zadd"   -> \* a = <<score, member>>
-            Res(Put([lv EXCEPT !.sc = Upd(lv.sc, a[2], a[1])]), RInt(IF a[2] \in DOMAIN lv.sc THEN 0 ELSE 1))
+            Res(Put([lv EXCEPT !.sc = Upd(lv.sc, a[2], ScoreNorm(a[1]))]), RInt(IF a[2] \in DOMAIN lv.sc THEN 0 ELSE 1))
        [] c = "zadd2"  -> \* a = <<s1, m1, s2, m2>>
-            Res(Put([lv EXCEPT !.sc = Upd(Upd(lv.sc, a[2], a[1]), a[4], a[3])]), RInt(Cardinality({a[2], a[4]} \ DOMAIN lv.sc)))
+            Res(Put([lv EXCEPT !.sc = Upd(Upd(lv.sc, a[2], ScoreNorm(a[1])), a[4], ScoreNorm(a[3]))]), RInt(Cardinality({a[2], a[4]} \ DOMAIN lv.sc)))
        [] c = "zincrby" -> \* a = <<delta, member>>
-            LET s == (IF a[2] \in DOMAIN lv.sc THEN lv.sc[a[2]] ELSE 0) + a[1]
-            IN Res(Put([lv EXCEPT !.sc = Upd(lv.sc, a[2], s)]), RScore(s))
+            LET r == ScoreAdd(IF a[2] \in DOMAIN lv.sc THEN lv.sc[a[2]] ELSE 0, ScoreNorm(a[1]))
+            IN IF ~r[2] THEN Res(db, ROut) ELSE Res(Put([lv EXCEPT !.sc = Upd(lv.sc, a[2], r[1])]), RScore(r[1]))
        [] c = "zrem"   -> Rem({a[1]} \cap DOMAIN lv.sc)
        [] c = "zrem2"  -> Rem({a[1], a[2]} \cap DOMAIN lv.sc)
        [] c = "zremrangebyrank" -> LET b == IdxRange(Len(zw), a[1], a[2])
